@@ -126,7 +126,7 @@ func typeStr(t types.Type) string {
 		if i := strings.LastIndex(c, "."); i >= 0 {
 			c = c[i+1:]
 		}
-		return "<" + c + ">"
+		return fmt.Sprintf("<%s#%d>", c, tp.Index())
 	}
 	if b, ok := t.(*types.Basic); ok {
 		switch b.Kind() { // aliases byte/rune print by their canonical names
@@ -313,6 +313,13 @@ func mkBinop(op token.Token, x, y *Val, t types.Type) *Val {
 			}
 		}
 	}
+	// a value of a narrow integer type (possibly widened) against a constant outside that type's range
+	switch op {
+	case token.LSS, token.LEQ, token.GTR, token.GEQ, token.EQL, token.NEQ:
+		if r, ok := rangeCompare(op, x, y); ok {
+			return mkBool(r)
+		}
+	}
 	// nil comparisons
 	if op == token.EQL || op == token.NEQ {
 		if r, ok := nilCompare(x, y); ok {
@@ -339,6 +346,95 @@ func mkBinop(op token.Token, x, y *Val, t types.Type) *Val {
 		}
 	}
 	return &Val{Op: "binop", Name: tokName[op], Args: []*Val{x, y}, Type: t}
+}
+
+// typeRangeOf: v is a value of integer type T, possibly passed through value-preserving widening conversions: the range
+// of T bounds it.
+func typeRangeOf(v *Val) (lo, hi constant.Value, ok bool) {
+	for i := 0; i < 6; i++ {
+		if v == nil || v.Type == nil {
+			return nil, nil, false
+		}
+		if v.Op == "conv" && len(v.Args) == 1 && v.Args[0].Type != nil && isIntegerType(v.Type) && isIntegerType(v.Args[0].Type) && wideningInt(v.Args[0].Type, v.Type) {
+			v = v.Args[0]
+			continue
+		}
+		break
+	}
+	if v.Op == "const" || v.Type == nil {
+		return nil, nil, false
+	}
+	b, isB := v.Type.Underlying().(*types.Basic)
+	if !isB || b.Info()&types.IsInteger == 0 {
+		return nil, nil, false
+	}
+	bits, unsigned := intBits(b)
+	if bits == 0 || bits >= 64 {
+		return nil, nil, false
+	}
+	one := constant.MakeInt64(1)
+	if unsigned {
+		return constant.MakeInt64(0), constant.BinaryOp(constant.Shift(one, token.SHL, uint(bits)), token.SUB, one), true
+	}
+	h := constant.Shift(one, token.SHL, uint(bits-1))
+	return constant.UnaryOp(token.SUB, h, 0), constant.BinaryOp(h, token.SUB, one), true
+}
+
+// rangeCompare decides x op y when one side is an integer constant that lies outside the range of the other side's type.
+func rangeCompare(op token.Token, x, y *Val) (bool, bool) {
+	flip := map[token.Token]token.Token{token.LSS: token.GTR, token.GTR: token.LSS, token.LEQ: token.GEQ, token.GEQ: token.LEQ, token.EQL: token.EQL, token.NEQ: token.NEQ}
+	if x.IsConst() && !y.IsConst() {
+		x, y, op = y, x, flip[op]
+	}
+	if !y.IsConst() || y.C == nil || y.C.Kind() != constant.Int || x.IsConst() {
+		return false, false
+	}
+	lo, hi, ok := typeRangeOf(x)
+	if !ok {
+		return false, false
+	}
+	c := y.C
+	below := constant.Compare(c, token.LSS, lo) // c < every x
+	above := constant.Compare(c, token.GTR, hi) // c > every x
+	switch op {
+	case token.GTR: // x > c
+		if above || constant.Compare(c, token.EQL, hi) {
+			return false, true
+		}
+		if below {
+			return true, true
+		}
+	case token.GEQ: // x >= c
+		if above {
+			return false, true
+		}
+		if below || constant.Compare(c, token.EQL, lo) {
+			return true, true
+		}
+	case token.LSS: // x < c
+		if below || constant.Compare(c, token.EQL, lo) {
+			return false, true
+		}
+		if above {
+			return true, true
+		}
+	case token.LEQ: // x <= c
+		if below {
+			return false, true
+		}
+		if above || constant.Compare(c, token.EQL, hi) {
+			return true, true
+		}
+	case token.EQL:
+		if below || above {
+			return false, true
+		}
+	case token.NEQ:
+		if below || above {
+			return true, true
+		}
+	}
+	return false, false
 }
 
 func isNum(c constant.Value) bool {
